@@ -19,7 +19,7 @@ template<class S,class Tg> void tr_exp(hx::Rec<S>& R){ COMMON
 }
 template<class S,class Tg> void tr_jacs(hx::Rec<S>& R){ COMMON
   T t=Tg::maket(R,"t",3);
-  assume_rot_positive<Tg>(R,t);
+  assume_rot_positive<Tg>(R,t); assume_rot_below_pi<Tg>(R,t);
   Jac a1=t.rjac(), a2=t.ljac(), a3=t.rjacinv(), a4=t.ljacinv();
   R.force_generic(true); Jac b1=t.rjac(), b2=t.ljac(), b3=t.rjacinv(), b4=t.ljacinv(); R.force_generic(false);
   apm(R,"rjac",a1,b1,"jac"); apm(R,"ljac",a2,b2,"jac"); apm(R,"rjacinv",a3,b3,"jac"); apm(R,"ljacinv",a4,b4,"jac");
